@@ -18,9 +18,9 @@ def plan(ctx):
     k = P.per_interp_shards(ctx)
     for v in ctx.producers:
         if ctx.tier == "quick":
-            cases = P.corpus_cases(ctx, v, n_files=200, n_w3=250, modes=30, max_file_bytes=150000)
+            cases = P.corpus_cases(ctx, v, n_files=200, n_extra=30, n_w3=250, modes=30, max_file_bytes=150000)
         else:
-            cases = P.corpus_cases(ctx, v, all_files=True, n_w3=3000, modes=300)
+            cases = P.corpus_cases(ctx, v, all_files=True, all_extra=True, n_w3=3000, modes=300)
         shards.extend(P.split(ctx, v, cases, k, "C14:"))
     return shards
 
